@@ -327,6 +327,37 @@ def _lossless_number(v, arg):
     return None
 
 
+def encoder_chain(fn):
+    """[(test, body)..., (None, else-body)] of an if/elif/else chain or of
+    the equivalent sequence of `if <test>: ...return` statements followed
+    by the fall-through statements"""
+    from ..guards import always_leaves
+    body = [s for s in fn.body if not (isinstance(s, ast.Expr)
+                                       and isinstance(s.value, ast.Constant))]
+    chain = []
+    i = 0
+    while i < len(body) and not isinstance(body[i], ast.If):
+        i += 1
+    if i == len(body):
+        raise Undecided("obj2bytes is not an if/elif chain")
+    while i < len(body) and isinstance(body[i], ast.If):
+        cur = body[i]
+        while isinstance(cur, ast.If):
+            chain.append((cur.test, cur.body))
+            if len(cur.orelse) == 1 and isinstance(cur.orelse[0], ast.If):
+                cur = cur.orelse[0]
+            elif cur.orelse:
+                chain.append((None, cur.orelse))
+                return chain
+            else:
+                break
+        if not always_leaves(body[i].body):
+            raise Undecided("obj2bytes: a branch falls through")
+        i += 1
+    chain.append((None, body[i:]))
+    return chain
+
+
 def r2_encoder(ctx):
     fitm = ctx.repo.mod("fit")
     fn = fitm.func("obj2bytes")
@@ -335,20 +366,7 @@ def r2_encoder(ctx):
     branches = {}
     none_branch = None
     node = None
-    for st in fn.body:
-        if isinstance(st, ast.If):
-            node = st
-    if node is None:
-        raise Undecided("obj2bytes is not an if/elif chain")
-    chain = []
-    cur = node
-    while isinstance(cur, ast.If):
-        chain.append((cur.test, cur.body))
-        if len(cur.orelse) == 1 and isinstance(cur.orelse[0], ast.If):
-            cur = cur.orelse[0]
-        else:
-            chain.append((None, cur.orelse))
-            break
+    chain = encoder_chain(fn)
     order = []
     for test, body in chain:
         if test is None:
